@@ -679,7 +679,36 @@ fn c18_probe(r: &mut Rng, out: &mut Out, st: &mut Stats) {
         2 => 1.000001,
         _ => r.pick(&[0.5, 0.99, 1.01, 2.0]),
     };
-    match r.below(3) {
+    match r.below(4) {
+        1 => {
+            // metre-scale right triangles sharing their hypotenuse (a rectangle, or a right triangle with a second triangle on
+            // its hypotenuse): the circumcentre of an oversized right triangle is the midpoint of the hypotenuse, so the first
+            // insertion is an EDGE split of a shared edge; the area bound sits between a quarter and a half of the area, so the
+            // pieces are small enough and only the aspect-ratio bound can ask for more work
+            let (outer, a2): (Vec<P2>, f64) = if r.below(3) == 0 {
+                let w = 1. + 3. * r.unit();
+                let h = w / (2. + 3. * r.unit());
+                (vec![(0., 0.), (w, 0.), (w, h), (0., h)], w * h * (0.27 + 0.2 * r.unit()))
+            } else {
+                // hypotenuse A=(0,0) -> B=(l,0); right-angle corner C on the circle over AB; the neighbour's apex D on the other
+                // side, off the perpendicular bisector, with a smaller area than the right triangle; the area bound lies between
+                // the two areas: only the right triangle is oversized, and the edge split halves the (acceptable) neighbour
+                let l = 1. + 3. * r.unit();
+                let th = (60. + 60. * r.unit()).to_radians();
+                let c = (0.5 * l + 0.5 * l * th.cos(), 0.5 * l * th.sin());
+                let d = 0.5 * l * th.sin() * (0.6 + 0.3 * r.unit());
+                let u = if r.bool() { -0.3 + 0.5 * r.unit() } else { 0.8 + 0.5 * r.unit() };
+                let a_rt = 0.25 * l * l * th.sin();
+                let a_nb = 0.5 * l * d;
+                let t = 0.1 + 0.8 * r.unit();
+                (vec![(0., 0.), (u * l, -d), (l, 0.), c], (a_nb * 1.02) * (1. - t) + (a_rt * 0.98) * t)
+            };
+            let p2 = Poly2 { family: "probe-right", outer: rotate_start(r, outer), holes: vec![] };
+            let mp = place_poly(&f, &p2);
+            let ma = a2;
+            let mar = r.pick(&[1.3, 1.6, 2.0]) as Float;
+            emit_mesh_case(out, st, &mp, Some((ma as Float, mar)), Show::Tris);
+        }
         0 => {
             // a right triangle (or a rectangle made of two) whose area is fac * 1e-3
             let w = 0.02 + 0.08 * r.unit();
